@@ -55,6 +55,10 @@ type Sim struct {
 
 func podKey(p *corev1.Pod) string { return p.Namespace + "/" + p.Name }
 
+type corevPod = corev1.Pod
+
+func uid(s string) types.UID { return types.UID(s) }
+
 // Materialise creates the API objects and the provider catalog of the scenario and hydrates
 // state.Cluster through the real informer controllers.  No events are recorded (the scenario is
 // the Cfg line); the Hydrate event afterwards shows what the cluster cache ended up with.
